@@ -65,7 +65,7 @@ Lemma Qc_eq_Qeq (a b : Qc) : a = b <-> (this a == this b)%Q.
 Proof. split; [intros ->; reflexivity | apply Qc_is_canon]. Qed.
 
 Ltac qc_unfold :=
-  unfold Qcle, Qclt, Qcplus, Qcminus, Qcopp, Qcmult, Q2Qc in *;
+  unfold Qcle, Qclt, Qcdiv, Qcminus in *; unfold Qcplus, Qcopp, Qcmult, Qcinv in *; unfold Q2Qc in *;
   cbn [this] in *; rewrite ?Qred_correct in *.
 
 Ltac qc_lra :=
